@@ -87,8 +87,7 @@ pub fn check(h: &History, rep: &mut EpReport, topic_pool: &[String], sub_pool: &
             Op::ListTopics { project, token, .. } => {
                 if let Out::Names { names, next } = out {
                     // only complete single-page listings are usable as a contains() read
-                    let _ = next;
-                    if token.is_empty() && names.len() < 20 {
+                    if token.is_empty() && next.is_empty() && names.len() < 20 {
                         for t in topic_pool {
                             if t.starts_with(&format!("{}/topics/", project)) {
                                 per_topic.entry(t.clone()).or_default().push(mk(read(names.contains(t))));
@@ -149,8 +148,7 @@ pub fn check(h: &History, rep: &mut EpReport, topic_pool: &[String], sub_pool: &
             }
             Op::ListSubs { project, token, .. } => {
                 if let Out::Subs { subs, next } = out {
-                    let _ = next;
-                    if token.is_empty() && subs.len() < 20 {
+                    if token.is_empty() && next.is_empty() && subs.len() < 20 {
                         for s in sub_pool {
                             if s.starts_with(&format!("{}/subscriptions/", project)) {
                                 match subs.iter().find(|v| v.name == *s) {
